@@ -396,4 +396,8 @@ func init() {
 		Old:    "\t\tcontinuationError := p.continuation_e.typecheckForm(gammaNameTypesCtx, providerShadowName, providerType, labelledTypesEnv, sigma, globalEnv)\n\n\t\treturn continuationError\n\t} else {\n\t\treturn TypeErrorf(\"expected '%s' to have a unit type (1), but found type '%s' instead\", p.to_c.String(), clientType.String())",
 		New:    "\t\t_ = p.continuation_e.typecheckForm(gammaNameTypesCtx, providerShadowName, providerType, labelledTypesEnv, sigma, globalEnv)\n\n\t\treturn nil\n\t} else {\n\t\treturn TypeErrorf(\"expected '%s' to have a unit type (1), but found type '%s' instead\", p.to_c.String(), clientType.String())",
 		Expect: "(*process.WaitForm).typecheckForm | premise"})
+	addFixture(Fixture{Name: "rule-report-writes-the-environment", Rule: "R-SHARED-WRITE", File: "process/transition.go",
+		Old:    "func (process *Process) finishedRule(rule Rule, prefix, suffix string, re *RuntimeEnvironment) {\n",
+		New:    "func (process *Process) finishedRule(rule Rule, prefix, suffix string, re *RuntimeEnvironment) {\n\tre.Quiet = rule == PRINT\n",
+		Expect: "plain-store#1-to-RuntimeEnvironment.Quiet"})
 }
